@@ -97,11 +97,12 @@ class Interp(object):
             result = fn()
         except allow as e:
             raised = e
-        except (fakes3.BucketCrash, fakes3.LostResponse) as e:
+        except (fakes3.BucketCrash, fakes3.LostResponse, fakes3.Rejected) as e:
             raised = e
         finally:
             self.fake.actor = None
             self.fake.crash_after = None
+            self.fake.reject_puts = 0
         muts = self.fake.log[n0:]
         after = self.fake.contents(zoo.BUCKET)
         self.check_confined(i, muts)
@@ -130,7 +131,10 @@ class Interp(object):
             rec.set_data('k', op['v'])
             rec.add_metadata({'m': op['v']})
             self.recs.append((i, rec))
-            if op.get('crash'):
+            if op.get('crash') and op.get('crash_kind') == 'rejected':
+                # a burst of refused writes (throttling): the next op['crash'] puts are not applied and raise
+                self.fake.reject_puts = op['crash']
+            elif op.get('crash'):
                 self.fake.crash_after = op['crash']
                 self.fake.crash_kind = op.get('crash_kind', 'crash')
             cas.save_recording(rec)
@@ -142,7 +146,8 @@ class Interp(object):
             if raised is None:
                 raise Violation('read-only cassette accepted create/save without raising', 'read-only')
         elif op.get('crash'):
-            if isinstance(raised, (fakes3.BucketCrash, fakes3.LostResponse)):
+            if isinstance(raised, (fakes3.BucketCrash, fakes3.LostResponse, fakes3.Rejected)) or \
+                    op.get('crash_kind') == 'rejected':
                 self.flags.add('crash-mid-save:%d' % op['crash'])
                 self.flags.add('crash-kind:' + op.get('crash_kind', 'crash'))
         elif raised is not None:
@@ -279,6 +284,10 @@ def make_machine(ctx):
               kind=st.sampled_from(['crash', 'lost']))
         def save_crash(self, cas, cat, v, k, kind):
             self.step({'op': 'save', 'cas': cas, 'cat': cat, 'v': v, 'crash': k, 'crash_kind': kind})
+
+        @rule(cas=st.integers(0, 3), cat=st.sampled_from(CATS), v=st.integers(0, 3), k=st.sampled_from([1, 2, 3, 4, 6]))
+        def save_rejected(self, cas, cat, v, k):
+            self.step({'op': 'save', 'cas': cas, 'cat': cat, 'v': v, 'crash': k, 'crash_kind': 'rejected'})
 
         @precondition(lambda self: self.interp.recs)
         @rule(cas=st.integers(0, 3), n=st.integers(0, 20), k=st.sampled_from([0, 1, 2]), kind=st.sampled_from(['crash', 'lost']))
